@@ -231,6 +231,23 @@ func (w *World) settle() {
 
 // NewWorld builds chain, graph database, graph builder and gossiper. Must be
 // called inside the synctest bubble.
+// pruneInterval is the zombie-prune ticker interval of the aging arm;
+// pruneHorizon the age beyond which a policy counts as a zombie edge.
+const (
+	pruneInterval = 15 * 24 * time.Hour
+	pruneHorizon  = graph.DefaultChannelPruneExpiry
+)
+
+// agingWorld is set by the run before NewWorld (one run per process at a time).
+var agingWorld bool
+
+func pruneIntervalFor(aging bool) time.Duration {
+	if aging {
+		return pruneInterval
+	}
+	return 200 * 365 * 24 * time.Hour
+}
+
 func NewWorld(r *simcore.Run, chain *SimChain, self *uNode, npeers int, syncPeers int, sqlBackend bool, banThreshold uint64) *World {
 	w := &World{r: r, chain: chain, self: self}
 	w.ctx, w.cancel = context.WithCancel(context.Background())
@@ -319,7 +336,7 @@ func NewWorld(r *simcore.Run, chain *SimChain, self *uNode, npeers int, syncPeer
 		ChainView:           chain.View(),
 		Notifier:            chain.Notifier(),
 		ChannelPruneExpiry:  graph.DefaultChannelPruneExpiry,
-		GraphPruneInterval:  200 * 365 * 24 * time.Hour, // out of reach of the fake clock
+		GraphPruneInterval:  pruneIntervalFor(agingWorld), // out of reach of the fake clock unless the run is in the aging arm
 		FirstTimePruneDelay: graph.DefaultFirstTimePruneDelay,
 		AssumeChannelValid:  false,
 		StrictZombiePruning: false,
